@@ -48,6 +48,8 @@ type Scenario struct {
 	StopOnDrift bool       `json:"stop_on_drift,omitempty"`
 	Family      string     `json:"family,omitempty"`
 	Attack      string     `json:"attack,omitempty"` // weakening whose TLC counterexample this schedule is
+	NoStart     []string   `json:"no_start,omitempty"`     // created but not started by the skeleton
+	NoBootstrap []string   `json:"no_bootstrap,omitempty"` // voters whose Bootstrap call is left to the program
 	LatencyUS   int        `json:"latency_us,omitempty"`
 }
 
@@ -263,12 +265,92 @@ func (r *Runner) do(s Stim) bool {
 	case "controlled":
 		c.SetControlled(s.On)
 		c.Settle()
+	case "api":
+		return r.api(s)
 	case "mark":
 		c.rec.Emit("mark", Ev{"what": s.Val, "node": s.N, "m": s.ID})
 	default:
 		return false
 	}
 	return true
+}
+
+// api performs one public API call that is not a submission, under recover.
+func (r *Runner) api(s Stim) (ok bool) {
+	c := r.c
+	n := c.node(s.N)
+	if n == nil || n.r == nil {
+		return false
+	}
+	c.mu.Lock()
+	c.clientSeq++
+	op := c.clientSeq
+	c.mu.Unlock()
+	c.rec.Emit("invoke", Ev{"op": op, "node": n.id, "inc": n.inc, "call": s.Val, "timeout": 0})
+	res := "ok"
+	defer func() {
+		if p := recover(); p != nil {
+			c.rec.Emit("panic", Ev{"op": op, "node": n.id, "inc": n.inc, "msg": fmt.Sprint(p), "call": s.Val})
+			res = "panic"
+		}
+		c.rec.Emit("return", Ev{"op": op, "node": n.id, "inc": n.inc, "call": s.Val, "res": res})
+		c.Settle()
+		ok = true
+	}()
+	switch s.Val {
+	case "status_string":
+		_ = n.r.Status().State.String()
+	case "cfg_string":
+		cfg := n.r.Configuration()
+		_ = cfg.String()
+	case "bootstrap":
+		m := map[string]string{}
+		for _, id := range r.sc.Voters {
+			m[id] = id
+		}
+		if s.ID != "" {
+			m = map[string]string{s.ID: s.ID}
+		}
+		if err := n.r.Bootstrap(m); err != nil {
+			res = "error"
+		}
+	case "start":
+		if err := n.r.Start(); err != nil {
+			res = "error"
+		} else {
+			c.mu.Lock()
+			n.running = true
+			c.mu.Unlock()
+		}
+	case "restart":
+		if err := n.r.Restart(); err != nil {
+			res = "error"
+		} else {
+			c.mu.Lock()
+			n.running = true
+			c.mu.Unlock()
+		}
+	case "stop":
+		c.openGate(n)
+		n.fsm.ReleaseAll()
+		c.net.failAll(n)
+		n.r.Stop()
+		c.mu.Lock()
+		n.running = false
+		c.mu.Unlock()
+	default:
+		res = "unknown"
+	}
+	return true
+}
+
+func contains(l []string, x string) bool {
+	for _, y := range l {
+		if x == y {
+			return true
+		}
+	}
+	return false
 }
 
 func (nt *Net) seqNow() int {
@@ -288,7 +370,7 @@ func (r *Runner) setup() {
 	members := append([]string{}, sc.Voters...)
 	for _, id := range sc.Voters {
 		n := c.AddNode(id)
-		if n.created {
+		if n.created && !contains(sc.NoBootstrap, id) {
 			c.Bootstrap(n, members)
 		}
 	}
@@ -296,7 +378,9 @@ func (r *Runner) setup() {
 		c.AddNode(id)
 	}
 	for _, id := range append(append([]string{}, sc.Voters...), sc.Extra...) {
-		c.Start(c.node(id))
+		if !contains(sc.NoStart, id) {
+			c.Start(c.node(id))
+		}
 	}
 	c.Settle()
 }
@@ -332,34 +416,46 @@ func (r *Runner) heal() {
 	}
 	c.Settle()
 	begin := time.Now()
-	deadline := begin.Add(time.Duration(bound) * c.ET)
 	probe := 0
 	probed := false
-	for time.Now().Before(deadline) {
-		time.Sleep(c.HB)
-		synctest.Wait()
-		c.Observe()
-		var leaders []*Node
-		for _, id := range ids {
-			if n := c.node(id); n.running && n.r.Status().State == 0 {
-				leaders = append(leaders, n)
+	conv := "no"
+	// The property's bound is `bound' election timeouts; a scenario that misses it is only
+	// reported if it also misses four times the bound (unlucky timer draws are not defects).
+	for _, lim := range []int{bound, 4 * bound} {
+		deadline := begin.Add(time.Duration(lim) * c.ET)
+		for time.Now().Before(deadline) {
+			time.Sleep(c.HB)
+			synctest.Wait()
+			c.Observe()
+			var leaders []*Node
+			for _, id := range ids {
+				if n := c.node(id); n.running && n.r.Status().State == 0 {
+					leaders = append(leaders, n)
+				}
+			}
+			if len(leaders) != 1 {
+				continue
+			}
+			if !probed {
+				// once there is a single leader, give it one fresh operation to commit
+				if time.Since(begin) > 3*c.ET {
+					probe = c.Submit(leaders[0], "probe", 0, time.Duration(4*bound)*c.ET)
+					probed = true
+					c.rec.Emit("probe", Ev{"op": probe, "node": leaders[0].id})
+				}
+				continue
+			}
+			// stop once every running member has caught up with the leader
+			if time.Since(begin) > 6*c.ET && r.converged(leaders[0], ids) {
+				if lim == bound {
+					conv = "B"
+				} else {
+					conv = "4B"
+				}
+				break
 			}
 		}
-		if len(leaders) != 1 {
-			continue
-		}
-		if !probed {
-			// once there is a single leader, give it one fresh operation to commit
-			if time.Since(begin) > 3*c.ET {
-				probe = c.Submit(leaders[0], "probe", 0, 10*c.ET)
-				probed = true
-				c.rec.Emit("probe", Ev{"op": probe, "node": leaders[0].id})
-			}
-			continue
-		}
-		// stop early once every running member has caught up with the leader (the bound
-		// only matters when that does not happen)
-		if time.Since(begin) > 6*c.ET && r.converged(leaders[0], ids) {
+		if conv != "no" {
 			break
 		}
 	}
@@ -379,7 +475,7 @@ func (r *Runner) heal() {
 		c.rec.Emit("final", Ev{"node": id, "inc": n.inc, "running": true, "role": int(st.State), "term": int(st.Term), "commit": int(st.CommitIndex),
 			"applied": int(st.LastApplied), "content": content, "cfg": cfgEv(&cfg)})
 	}
-	c.rec.Emit("heal_done", Ev{"probe": probe})
+	c.rec.Emit("heal_done", Ev{"probe": probe, "conv": conv, "et": int(time.Since(begin) / c.ET)})
 }
 
 // converged: the probe was applied by the leader and every running member of the leader's
@@ -438,4 +534,5 @@ func (r *Runner) Run() {
 	}
 	c.rec.Emit("end", Ev{"steps": r.done, "skipped": r.skipped})
 	c.Shutdown()
+	c.rec.Emit("closed", Ev{})
 }
